@@ -273,6 +273,7 @@ def check_notes(res, case, merged, S, objs, L):
 
     # --- note array of the merged part
     ref = M.sounding_rows(case)
+    origin_m = min(first_quarter(p) for p in parts)
     ok, na = guarded(res, "merged-note-array", merged.note_array, include_staff=True)
     rows = None
     if ok:
@@ -292,9 +293,9 @@ def check_notes(res, case, merged, S, objs, L):
                 r = rows[nid]
                 exp = (int(on * L), int(du * L), pitch)
                 got = (int(r["onset_div"]), int(r["duration_div"]), int(r["pitch"]))
-                if exp != got or not close32(r["onset_quarter"], on) or not close32(r["duration_quarter"], du):
+                if exp != got or not close32(r["onset_quarter"], on - origin_m) or not close32(r["duration_quarter"], du):
                     bad.append((nid, "expected (onset_div, duration_div, pitch, onset_q, duration_q)",
-                                list(exp) + [str(on), str(du)], "observed",
+                                list(exp) + [str(on - origin_m), str(du)], "observed",
                                 list(got) + [float(r["onset_quarter"]), float(r["duration_quarter"])]))
                 o = gobjs.get(nid)
                 if o is not None:
@@ -309,6 +310,13 @@ def check_notes(res, case, merged, S, objs, L):
                 res.fail("merged-note-array", expected="reference rows at lcm %d" % L, observed=bad[:4],
                          where="merge_parts: note array", detail="mode=%s divisions=%s" % (mode, [pdivs(p) for p in parts]))
     return rows
+
+
+def first_quarter(part):
+    """musical time (quarters from timeline 0) of the first time point of a part spec: the time maps put
+    their zero there (C02: 'zero lies ... at the first time point'; all generated first measures are complete)"""
+    ts = [o[k] for o in part["objs"] for k in ("s", "e") if o.get(k) is not None]
+    return Fraction(min(ts), pdivs(part)) if ts else Fraction(0)
 
 
 def check_score_array(res, case, sna, merged_rows):
@@ -334,9 +342,10 @@ def check_score_array(res, case, sna, merged_rows):
             r = rows[nid][0]
             exp = (int(on * U), int(du * U), pitch, U)
             got = (int(r["onset_div"]), int(r["duration_div"]), int(r["pitch"]), int(r["divs_pq"]))
-            if exp != got or not close32(r["onset_quarter"], on) or not close32(r["duration_quarter"], du):
+            org = first_quarter(parts[pi])
+            if exp != got or not close32(r["onset_quarter"], on - org) or not close32(r["duration_quarter"], du):
                 cur.append((nid, "expected (onset_div, duration_div, pitch, divs_pq, onset_q, duration_q)",
-                            list(exp) + [str(on), str(du)], "observed",
+                            list(exp) + [str(on - org), str(du)], "observed",
                             list(got) + [float(r["onset_quarter"]), float(r["duration_quarter"])]))
         if not cur:
             bad = None
@@ -352,7 +361,10 @@ def check_score_array(res, case, sna, merged_rows):
             a, b = merged_rows[nid], rows[nid][0]
             ka = (float(a["onset_quarter"]), float(a["duration_quarter"]), int(a["pitch"]))
             kb = (float(b["onset_quarter"]), float(b["duration_quarter"]), int(b["pitch"]))
-            same = close32(ka[0], kb[0]) and close32(ka[1], kb[1]) and ka[2] == kb[2]
+            # quarter onsets are measured from each container's own first time point: comparable only
+            # when every part starts where the merged part starts
+            same_origin = len({first_quarter(p) for p in parts}) == 1
+            same = (close32(ka[0], kb[0]) or not same_origin) and close32(ka[1], kb[1]) and ka[2] == kb[2]
             if int(b["divs_pq"]) == L:
                 same = same and int(a["onset_div"]) == int(b["onset_div"]) and int(a["duration_div"]) == int(b["duration_div"])
             if not same:
